@@ -37,6 +37,12 @@ def run(ctx):
     ctx.add_tlc(rb, "MC_TokenBucket.cfg")
     if rb.violation:
         raise Inconclusive("TokenBucket.tla violates %s" % rb.violation)
+    # unbounded: the rate bound is inductive for every burst, refill quantum, payload and chunking (TLAPS)
+    okp, nobl, outp = tlc.tlapm("TokenBucketProof", timeout=600)
+    if not okp:
+        raise Inconclusive("TLAPS could not prove spec/TokenBucketProof.tla: " + outp[-800:])
+    ctx.coverage["tlaps_obligations_proved"] = nobl
+    log("E1 TLAPS TokenBucketProof: all %d obligations proved (RateBound for every burst / refill / chunking)" % nobl)
     # ---- parser walk
     g = walk.load_dot(os.path.join(r.scratch, "g.dot"))
     paths, cov, total = walk.cover_paths(g, max_len=200, seed=ctx.seed)
